@@ -179,7 +179,8 @@ impl<'a, BE: DecryptWriteBackend, I: ReadGlobalIndex> TreeArchiver<'a, BE, I> {
             ParentResult::Matched(p_id) if id == *p_id => {
                 debug!("unchanged tree: {}", path.display());
                 self.summary.dirs_unmodified += 1;
-                return Ok(id);
+                // no early return: the parent's tree blob may be missing from the index (e.g. after a
+                // partial prune or repair), in which case it must be saved like any other new tree
             }
             ParentResult::NotFound => {
                 debug!("new       tree: {} {dirsize_bytes}", path.display());
